@@ -1,7 +1,7 @@
 (* Extract/ExtractC15.v — extraction of the C15 models (table layouts, sfnt tables, CFF operands
    and INDEX) for the correspondence check.  ExtrOcamlBasic only. *)
 From AV Require Import Base.Prelude Gen.ReaderPrims Model.Reader Model.ReaderExt Model.TableLayout
-  Gen.TableLayouts Model.Tables Model.Cff.
+  Gen.TableLayouts Model.Tables Model.Cff Gen.CffDictTables Model.CffDict.
 Require Import ExtrOcamlBasic.
 Extraction Language OCaml.
 
@@ -25,4 +25,6 @@ Extraction "../ocaml/c15/model.ml"
   os2_read os2_write os2_write_version pascal_write write_u24
   simple_glyph_write glyph_read
   operand_int_write operand_offset_write op_read serialise_offset_array
-  index_write index_read index_objects index_write_borrowed.
+  index_write index_read index_objects index_write_borrowed
+  dict_read dict_write dict_write_dep dict_written integer_to_offset operator_try_from is_default
+  kind_defaults kind_max_operands operand_write operator_write.
